@@ -84,6 +84,7 @@ var trTargets = []trTarget{
 	{Pkg: evm + "x/vauth/keeper", Recv: "msgServer", Name: "SubmitProofExternalOwnedAccount", EraseObj: true},
 	{Pkg: evm + "app/antedl/duallane", Recv: "DLSigVerificationDecorator", Name: "AnteHandle", EraseObj: true},
 	{Pkg: evm + "app/antedl/duallane", Recv: "DLIncrementSequenceDecorator", Name: "AnteHandle", EraseObj: true},
+	{Pkg: evm + "app/antedl/duallane", Recv: "DLDeductFeeDecorator", Name: "AnteHandle", EraseObj: true},
 	{Pkg: evm + "indexer", Name: "TxIndexKey"},
 	{Pkg: evm + "indexer", Name: "parseBlockNumberFromKey"},
 	{Pkg: evm + "app/antedl/evmlane", Recv: "ELValidateBasicEoaDecorator", Name: "AnteHandle", EraseObj: true},
